@@ -27,6 +27,7 @@ import (
 	"sort"
 	"strconv"
 	"strings"
+	"sync"
 	"sync/atomic"
 	"time"
 
@@ -38,6 +39,9 @@ import (
 	"github.com/megaease/easegress/pkg/logger"
 	"github.com/megaease/easegress/pkg/protocols/httpprot"
 	"github.com/megaease/easegress/pkg/util/readers"
+	"github.com/megaease/easegress/pkg/cluster"
+	"github.com/megaease/easegress/pkg/cluster/clustertest"
+	"github.com/megaease/easegress/pkg/supervisor"
 	"github.com/megaease/easegress/pkg/util/signer"
 )
 
@@ -236,6 +240,13 @@ func (o vfC06Out) String() string {
 
 // vfC06Serve hands the wire bytes to the Validator the way muxInstance.serveHTTP does.
 func vfC06Serve(v *Validator, r *vfC06Req, limit int64) vfC06Out {
+	return vfC06ServePre(v, r, limit, 0)
+}
+
+// vfC06ServePre: pre != 0 puts a response with that status (and a body) into the context before
+// the Validator runs, as an earlier filter of the same pipeline (Proxy, ResponseBuilder,
+// RemoteFilter ...) does.
+func vfC06ServePre(v *Validator, r *vfC06Req, limit int64, pre int) vfC06Out {
 	var out vfC06Out
 	stdr, err := http.ReadRequest(bufio.NewReader(bytes.NewReader(r.wire())))
 	if err != nil {
@@ -251,6 +262,12 @@ func vfC06Serve(v *Validator, r *vfC06Req, limit int64) vfC06Out {
 	if err := req.FetchPayload(limit); err != nil {
 		out.Err = "FetchPayload: " + err.Error()
 		return out
+	}
+	if pre != 0 {
+		earlier, _ := httpprot.NewResponse(nil)
+		earlier.SetStatusCode(pre)
+		earlier.SetPayload([]byte("response of an earlier filter"))
+		ctx.SetOutputResponse(earlier)
 	}
 	out.Panic, out.PText, out.Site = vfRecover(func() { out.Result = v.Handle(ctx) })
 	if out.Panic {
@@ -269,6 +286,11 @@ func vfC06Serve(v *Validator, r *vfC06Req, limit int64) vfC06Out {
 // vfC06NewValidator pushes a generated spec through YAML and filters.NewSpec (the admin API's
 // acceptance path) and initialises the filter.
 func vfC06NewValidator(spec map[string]interface{}) (*Validator, string, error) {
+	return vfC06NewValidatorSuper(spec, nil)
+}
+
+// vfC06NewValidatorSuper: the same with a supervisor (basicAuth mode ETCD reads the cluster).
+func vfC06NewValidatorSuper(spec map[string]interface{}, super *supervisor.Supervisor) (*Validator, string, error) {
 	spec["kind"] = Kind
 	spec["name"] = "vf-validator"
 	yb, err := yaml.Marshal(spec)
@@ -279,7 +301,7 @@ func vfC06NewValidator(spec map[string]interface{}) (*Validator, string, error) 
 	if err := yaml.Unmarshal(yb, &raw); err != nil {
 		return nil, string(yb), err
 	}
-	s, err := filters.NewSpec(nil, "", raw)
+	s, err := filters.NewSpec(super, "", raw)
 	if err != nil {
 		return nil, string(yb), err
 	}
@@ -321,6 +343,7 @@ type vfVariant struct {
 	Hdr     vfVerdict // header rules verdict (vfAccept when none configured)
 	Cred    vfVerdict // conjunction of the credential methods
 	Covered bool      // derived from an accepted request by changing only a covered part
+	Pre     int       // != 0: status of a response an earlier filter left in the context
 }
 
 func (x *vfVariant) want() vfVerdict { return vfAnd(x.Hdr, x.Cred) }
@@ -328,14 +351,18 @@ func (x *vfVariant) want() vfVerdict { return vfAnd(x.Hdr, x.Cred) }
 // vfCompare runs one variant against the real filter. Returns true when the case must be
 // abandoned (a known finding was hit).
 func vfCompare(vf *vfCollector, rt vfFataler, v *Validator, x *vfVariant, limit int64, descr func() string) bool {
-	out := vfC06Serve(v, &x.Req, limit)
+	out := vfC06ServePre(v, &x.Req, limit, x.Pre)
 	if out.Err != "" {
 		rt.Fatalf("VF-INCONCLUSIVE generator produced a request the server side does not take: %s\n%s\n%s", out.Err, x.Req.String(), descr())
 		return true
 	}
 	want := x.want()
 	full := func() string {
-		return fmt.Sprintf("variant %s\nrequest: %s\noracle: headers=%s credentials=%s\ngot: %s\n%s", x.Label, x.Req.String(), x.Hdr, x.Cred, out, descr())
+		pre := ""
+		if x.Pre != 0 {
+			pre = fmt.Sprintf("\ncontext already held a response with status %d (earlier filter) when the Validator ran", x.Pre)
+		}
+		return fmt.Sprintf("variant %s\nrequest: %s%s\noracle: headers=%s credentials=%s\ngot: %s\n%s", x.Label, x.Req.String(), pre, x.Hdr, x.Cred, out, descr())
 	}
 	if out.Panic {
 		return vf.Violation(rt, fmt.Sprintf("%s/panic site=%s panic=%s", x.Label, out.Site, vfPanicClass(out.PText)), "%s", full())
@@ -605,6 +632,60 @@ func vfRewriteHtpasswd(name string, users []vfUser, salt []byte) error {
 		b.WriteString(l + "\n")
 	}
 	return os.WriteFile(name, []byte(b.String()), 0o600)
+}
+
+// vfEtcdEntry is one credential entry of basicAuth mode ETCD: stored under
+// /custom-data/<prefix>/<StoreKey> as YAML with key / username / password. The Basic user name is
+// `username`, and `key` only when username is empty (spec comment in basicauth.go).
+type vfEtcdEntry struct {
+	StoreKey string
+	Key      string
+	Username string
+	User     vfUser // the configured user: effective name, clear password, encoding scheme
+}
+
+func (e vfEtcdEntry) kind() string {
+	switch {
+	case e.Key != "" && e.Username != "":
+		return "key+username"
+	case e.Username != "":
+		return "username-only"
+	}
+	return "key-only"
+}
+
+// vfEtcdSupervisor builds a supervisor whose (mocked) cluster holds the entries.
+func vfEtcdSupervisor(prefix string, entries []vfEtcdEntry, salt []byte) (*supervisor.Supervisor, string, error) {
+	kvs := map[string]string{}
+	var dump strings.Builder
+	for _, e := range entries {
+		line, err := vfHtpasswdLine(vfUser{Name: "", Pass: e.User.Pass, Scheme: e.User.Scheme}, salt)
+		if err != nil {
+			return nil, "", err
+		}
+		m := map[string]interface{}{"password": strings.TrimPrefix(line, ":")}
+		if e.Key != "" {
+			m["key"] = e.Key
+		}
+		if e.Username != "" {
+			m["username"] = e.Username
+		}
+		yb, err := yaml.Marshal(m)
+		if err != nil {
+			return nil, "", err
+		}
+		k := "/custom-data/" + prefix + e.StoreKey
+		kvs[k] = string(yb)
+		fmt.Fprintf(&dump, "%s => {key: %q, username: %q, password(clear): %q %s}\n", k, e.Key, e.Username, e.User.Pass, e.User.Scheme)
+	}
+	cls := clustertest.NewMockedCluster()
+	cls.MockedGetPrefix = func(string) (map[string]string, error) { return kvs, nil }
+	syncer := clustertest.NewMockedSyncer()
+	ch := make(chan map[string]string)
+	syncer.MockedSyncPrefix = func(string) (<-chan map[string]string, error) { return ch, nil }
+	cls.MockedSyncer = func(time.Duration) (cluster.Syncer, error) { return syncer, nil }
+	var m sync.Map
+	return supervisor.NewMock(nil, cls, m, m, nil, nil, false, nil, nil), dump.String(), nil
 }
 
 // vfBasicVerdict: accepted <=> (user, password) equals a configured pair exactly; the
